@@ -100,6 +100,11 @@ def handlePt (verb : String) (kv : List (String × String)) : String :=
   | "push" => match getNat kv "ndim", getBool kv "any", (get kv "ops").bind parseOps with
       | some nd, some any, some ops => joinWith "," ((partitionsPush nd any ops).map bool01)
       | _, _, _ => "BAD params"
+  | "selargs" => match getNats kv "args", getNats kv "P" with
+      | some args, some P => (match selectArgs args P with
+          | some r => rNats r
+          | none => "ERR IndexError")
+      | _, _ => "BAD params"
   | "guard" => match getBool kv "structural", getBool kv "numdep", getBool kv "filtered" with
       | some st, some nd, some fl => (match partitionsRule st nd fl with
           | .wrap => "wrap" | .absorb => "absorb" | .none => "none")
